@@ -36,10 +36,14 @@ def close(a, b, scale=1.0):
     return math.isfinite(a) and math.isfinite(b) and abs(a - b) <= 1e-9 * max(1.0, abs(a), abs(b), scale)
 
 
-def check(spec):
+def check(spec, _b=None):
+    """_b: (second phase only) the objects of the first phase after the caller edited them in place; spec is then the edited description"""
     if not spec.get("progs"):
         raise Discard("spec without programs")
-    b, res = simcase.run_spec(spec)
+    if _b is None:
+        b, res = simcase.run_spec(spec)
+    else:
+        b, res = simcase.run_spec(spec, b=_b)
     m = res.model
     dt = float(m.dt)
     t = np.asarray(res.t, dtype=float)
@@ -71,7 +75,9 @@ def check(spec):
     import itertools, json, zlib
 
     crc = zlib.crc32(json.dumps(spec, sort_keys=True).encode())
-    if (crc // 120) % 3 == 0 and b.get("progset") is not None:
+    edited = False
+    if _b is None and (crc // 120) % 3 == 0 and b.get("progset") is not None:
+        edited = True
         for prog in b["progset"].programs.values():
             prog.spend_data.vals = [3.0 * v + 7.0 for v in prog.spend_data.vals]
             prog.unit_cost.vals = [2.0 * v + 1.0 for v in prog.unit_cost.vals]
@@ -144,5 +150,24 @@ def check(spec):
             if not np.array_equal(a0, a1, equal_nan=True):
                 i = int(np.nonzero(~((a0 == a1) | (np.isnan(a0) & np.isnan(a1))))[0][0])
                 raise Violation(ID, "untargeted-parameter-changed", "%s/%s is data driven and not targeted but differs from the run without programs at index %d: %r vs %r" % (pop1.name, p1.name, i, a1[i], a0[i]))
+    if edited:
+        # ... and the next simulation with the edited objects must follow the EDITED numbers (nothing cached from the first run)
+        import copy
+
+        spec2 = copy.deepcopy(spec)
+        for q in spec2["progs"]["progs"]:
+            q["spend"]["v"] = [3.0 * v + 7.0 for v in q["spend"]["v"]]
+            q["cost"]["v"] = [2.0 * v + 1.0 for v in q["cost"]["v"]]
+            q["comps"] = list(q["comps"])[:1]
+        for key in ("alloc", "coverage", "capacity"):
+            for e in spec2["instr"][key].values():
+                e["v"] = [0.5 * v for v in e["v"]]
+        try:
+            check(spec2, _b=b)
+        except Violation as v:
+            raise Violation(ID, "second-run-after-edit/" + v.bucket, "after the caller edited the program set (spend x3+7, unit cost x2+1, first target compartment only) and the instructions (x0.5) in place and ran again: " + v.detail)
+        except Discard:
+            pass
+        feats.add("second-run-with-edited-objects")
     nontrivial = "partial-coverage" in feats and any(f.startswith("convert:number") or f.startswith("convert:per-year") for f in feats)
     return {"nontrivial": nontrivial, "labels": simcase.labels_of(spec) + ["c13:" + f for f in sorted(feats)]}
